@@ -1632,6 +1632,26 @@ def r07_15(ctx):
     ctx.need(n >= 1, "yielding paths of option iterators in src/wire")
 
 
+def _accessor_reach(F, cb, adt, depth=0):
+    """largest constant buffer position an accessor of the view reads, following the view's own accessors it calls
+    (total_len() -> payload_len()); None when some access is not at a constant position"""
+    accs = buffer_accesses(F, cb, adt)
+    consts = [a['const'] for a in accs]
+    if any(c is None for c in consts):
+        return None
+    best = max(consts, default=0)
+    if depth < 3:
+        for y in cb.calls():
+            n2 = cb.callee_name(y[1]) or ''
+            c2 = F.bodies.get(n2)
+            if c2 is not None and c2.meta.get('impl_self') == adt and c2.key != cb.key and not n2.endswith('::check_len'):
+                r2 = _accessor_reach(F, c2, adt, depth + 1)
+                if r2 is None:
+                    return None
+                best = max(best, r2)
+    return best
+
+
 @rule('R07.16', ['C07', 'C03'], floor=8, clause='a length validator does not itself read outside the buffer: inside every check_len each read of the buffer at a constant position - directly or through one of the view\'s own accessors - comes after a test that the buffer is at least that long')
 def r07_16(ctx):
     from ..bitfield import _is_buffer
@@ -1659,10 +1679,9 @@ def r07_16(ctx):
             rcv = _canon(simplify(F.origin.operand(b, x[2][0], x[0], len(b.blocks[x[0]]['s']))))
             if rcv not in (('arg', 1), ('field', ('arg', 1), ())):
                 continue
-            accs = buffer_accesses(F, cb, adt)
-            consts = [a['const'] for a in accs if a['const'] is not None]
-            if accs and len(consts) == len(accs) and max(consts) > 0:
-                needs.append((x[0], max(consts), f"{cn.rsplit('::', 1)[-1]}() reading {max(consts)} octets"))
+            reach_ = _accessor_reach(F, cb, adt)
+            if reach_:
+                needs.append((x[0], reach_, f"{cn.rsplit('::', 1)[-1]}() reading {reach_} octets"))
         if not needs:
             continue
         # guard edges: len >= K  (and len != K, which lifts a dominating len >= K to len >= K + 1)
@@ -1698,3 +1717,74 @@ def r07_16(ctx):
                 ctx.bad(f"{short}::check_len|reads-before-length-test|{need}", f"{short}::check_len itself reads the buffer ({what}) before any test that the buffer has {need} octets: "
                         "new_checked() on a shorter byte string panics instead of answering Err", body=b, bb=bb)
     ctx.need(n >= 8, f"buffer reads inside check_len validators (found {n})")
+
+
+def _by_modes(F, b, fields, combos):
+    """for each combination of the mode getters' values: the set of blocks reachable when every switch on one of the
+    getters takes the edge of that value (the else edge if the value has no edge of its own)"""
+    out = {}
+    sw = {}
+    for bi, bl in enumerate(b.blocks):
+        if bl['cl'] or bl['t'][0] != 'switch':
+            continue
+        d = strip(simplify(F.origin.operand(b, bl['t'][1], bi, len(bl['s']))))
+        for fld in fields:
+            if d[0] == 'call' and d[1].endswith('::' + fld):
+                sw[bi] = fld
+    for combo in combos:
+        val = dict(zip(fields, combo))
+        cut = set()
+        for bi, fld in sw.items():
+            t = b.blocks[bi]['t']
+            targets = {v: tb for v, tb in t[2]}
+            want = targets.get(val[fld], t[3])
+            for tb, lab in b.succ_edges(bi):
+                if tb != want or (lab[1] != val[fld] and val[fld] in targets) or (lab[1] != 'else' and val[fld] not in targets):
+                    cut.add((bi, tb, lab))
+        out[combo] = set(b.reachable(cut_edges=cut))
+    return out, len(sw)
+
+
+@rule('R07.17', ['C07', 'C20', 'C03'], floor=20, clause='6LoWPAN IPHC: for every combination of the address-mode bits the length check_len reserves for an in-line address (src_address_size / dst_address_size) covers what src_addr() / dst_addr() read of it in that mode')
+def r07_17(ctx):
+    F = ctx.F
+    from itertools import product
+    P = 'wire::sixlowpan::iphc::Packet'
+    n = 0
+    for size_fn, addr_fn, fields, combos in (
+            ('dst_address_size', 'dst_addr', ('m_field', 'dac_field', 'dam_field'), list(product((0, 1), (0, 1), (0, 1, 2, 3)))),
+            ('src_address_size', 'src_addr', ('sac_field', 'sam_field'), list(product((0, 1), (0, 1, 2, 3))))):
+        sb = [F.bodies[k] for k in F.bodies if k.startswith(P) and k.endswith('::' + size_fn)]
+        ab = [F.bodies[k] for k in F.bodies if k.startswith(P) and k.endswith('::' + addr_fn)]
+        ctx.need(sb and ab, f"iphc::Packet::{size_fn} / {addr_fn}")
+        sb, ab = sb[0], ab[0]
+        sreach, ns = _by_modes(F, sb, fields, combos)
+        areach, na = _by_modes(F, ab, fields, combos)
+        ctx.need(ns >= 2 and na >= 2, f"mode switches in {size_fn} / {addr_fn}")
+        for combo in combos:
+            sizes = set()
+            for bi in sreach[combo]:
+                for s in sb.blocks[bi]['s']:
+                    if s[0] == 'a' and s[1] == [0, []] and s[2][0] == 'use' and s[2][1][0] == 'k' and isinstance(s[2][1][2], int) and not isinstance(s[2][1][2], bool):
+                        sizes.add(s[2][1][2])
+            if len(sizes) != 1:
+                continue
+            size = sizes.pop()
+            reads = 0
+            for x in ab.calls():
+                if x[0] not in areach[combo]:
+                    continue
+                cn = ab.callee_name(x[1]) or ''
+                if cn.rsplit('::', 1)[-1] != 'index' or len(x[2]) != 2:
+                    continue
+                rb = range_bounds(F, simplify(F.origin.operand(ab, x[2][1], x[0], len(ab.blocks[x[0]]['s']))))
+                if rb and rb[0] == 'RangeTo' and const_of(rb[2]) is not None:
+                    reads = max(reads, const_of(rb[2]))
+            n += 1
+            key = ','.join(f"{f.split('_')[0]}={v}" for f, v in zip(fields, combo))
+            if reads <= size:
+                ctx.ok((addr_fn, key), sample=dict(mode=key, reserved=size, read=reads))
+            else:
+                ctx.bad(f"iphc::{addr_fn}|{key}|reads-beyond-{size_fn}", f"in mode {key} iphc::Packet::{addr_fn}() reads {reads} in-line octets while {size_fn}() - which check_len sums - says {size}: "
+                        "a checked header that ends inside the in-line address passes new_checked and the accessor / Repr::parse then panic", body=ab)
+    ctx.need(n >= 20, f"address-mode combinations compared (found {n})")
